@@ -47,9 +47,6 @@ Proof. intros [H|(T & H)]; [left; exact H | right; split; [left; exact T | exact
 Lemma inert_still t : inert t -> still t.
 Proof. intros [H|(H & _)]; left; rewrite H; discriminate. Qed.
 
-Lemma inert_tag t : inert t -> tag_is_empty (fst t) = false.
-Proof. intros [H|(H & _)]; rewrite H; reflexivity. Qed.
-
 (* ------------------------------------------------------------------ 0: the early returns *)
 Lemma drop_blank_in (c : char) (g : str) :
   c <> 32 -> In c g -> In c (match rev g with c0 :: r => if c0 =? 32 then rev r else g | [] => [] end).
@@ -62,7 +59,7 @@ Proof.
   - apply in_rev in G. exact G.
 Qed.
 
-Lemma line_has_cmd c cmd l : c <> 32 -> In c cmd -> In c (tokens_to_line ((TNone, cmd) :: l)).
+Lemma line_has_cmd (c : char) (cmd : str) (l : tokens) : c <> 32 -> In c cmd -> In c (tokens_to_line ((TNone, cmd) :: l)).
 Proof.
   intros Hc Hin. unfold tokens_to_line. apply drop_blank_in; [exact Hc|].
   cbn [tokens_to_line_go tag_is_empty tag_eqb]. apply in_or_app. left. exact Hin.
@@ -134,11 +131,43 @@ Proof.
 Qed.
 
 (* ------------------------------------------------------------------ 1: expand_alias *)
+(** the passes before expand_env only look at the tag of an argument *)
+Definition tagged (t : token) : Prop := tag_is_empty (fst t) = false.
+
+Lemma alias_collect_tagged W l : Forall tagged l -> forall i, alias_collect W l i false = [].
+Proof.
+  induction 1 as [|[tg s] l Ht _ IH]; intros i; [reflexivity|].
+  cbn [alias_collect]. unfold tagged in Ht. cbn [fst] in Ht. rewrite Ht. cbn [andb]. apply IH.
+Qed.
+
+Lemma expand_alias_tagged tokenize W cmd l :
+  cmd_ok W cmd -> Forall tagged l -> expand_alias tokenize W ((TNone, cmd) :: l) = (TNone, cmd) :: l.
+Proof.
+  intros [Ha (Hx & _ & Hp) _ _] Hl. unfold expand_alias.
+  cbn [alias_collect tag_is_empty tag_eqb andb].
+  rewrite (proj2 (str_eqb_neq _ _) Hp), (proj2 (str_eqb_neq _ _) Hx), Ha.
+  rewrite alias_collect_tagged by exact Hl. reflexivity.
+Qed.
+
 (* ------------------------------------------------------------------ 2: expand_home *)
-Lemma strip_prefix_absent c s : ~ In c s -> strip_prefix [c] s = None.
+Lemma strip_prefix_absent (c : N) (s : list N) : ~ In c s -> strip_prefix (@cons N c (@nil N)) s = None.
 Proof.
   intros H. destruct s as [|d r]; [reflexivity|]. cbn [strip_prefix].
   destruct (c =? d) eqn:E; [|reflexivity]. apply N.eqb_eq in E. exfalso. apply H. left. congruence.
+Qed.
+
+Lemma expand_home_map_tagged W l : Forall tagged l -> map (expand_home_tok W) l = l.
+Proof.
+  induction 1 as [|t l Ht _ IH]; [reflexivity|]. cbn [map]. rewrite IH.
+  unfold expand_home_tok. rewrite Ht. reflexivity.
+Qed.
+
+Lemma expand_home_tagged W (cmd : str) l :
+  ~ In 126 cmd -> Forall tagged l -> expand_home W ((TNone, cmd) :: l) = (TNone, cmd) :: l.
+Proof.
+  intros Hc Hl. unfold expand_home. cbn [map]. rewrite (expand_home_map_tagged W l Hl).
+  unfold expand_home_tok. cbn [fst snd tag_is_empty tag_eqb]. rewrite (strip_prefix_absent 126 cmd Hc).
+  reflexivity.
 Qed.
 
 (* ------------------------------------------------------------------ 3: expand_env *)
@@ -169,7 +198,7 @@ Proof.
   cbn [expand_env]. rewrite (expand_env_tok_ok _ _ _ _ Ht). cbn [bind]. rewrite IH. reflexivity.
 Qed.
 
-Lemma expand_env_inert W fuel cmd l l' :
+Lemma expand_env_inert W fuel (cmd : str) l l' :
   ~ In 36 cmd -> Forall2 (tok_ok W fuel) l l' ->
   expand_env fuel W ((TNone, cmd) :: l) = Ok ((TNone, cmd) :: l').
 Proof.
@@ -192,8 +221,13 @@ Proof.
   - rewrite forallb_forall in Hv. specialize (Hv 36 Hc). rewrite okc_36 in Hv. discriminate.
 Qed.
 
-Lemma tok_ok_inert_l W fuel t t' : tok_ok W fuel t t' -> tag_is_empty (fst t) = false.
+Lemma tok_ok_tagged_l W fuel t t' : tok_ok W fuel t t' -> tagged t.
 Proof. intros [s|s _ _|ps _ _ _]; reflexivity. Qed.
+
+Lemma forall2_tagged_l W fuel l l' : Forall2 (tok_ok W fuel) l l' -> Forall tagged l.
+Proof.
+  induction 1 as [|t t' l l' Ht _ IH]; constructor; [eapply tok_ok_tagged_l; eassumption | exact IH].
+Qed.
 
 Lemma tok_ok_inert_r W fuel t t' : tok_ok W fuel t t' -> inert t'.
 Proof.
@@ -208,43 +242,6 @@ Qed.
 Lemma forall2_inert_r W fuel l l' : Forall2 (tok_ok W fuel) l l' -> Forall inert l'.
 Proof.
   induction 1 as [|t t' l l' Ht _ IH]; constructor; [eapply tok_ok_inert_r; eassumption | exact IH].
-Qed.
-
-(** the passes before expand_env only look at the tag of an argument *)
-Definition tagged (t : token) : Prop := tag_is_empty (fst t) = false.
-
-Lemma forall2_tagged_l W fuel l l' : Forall2 (tok_ok W fuel) l l' -> Forall tagged l.
-Proof.
-  induction 1 as [|t t' l l' Ht _ IH]; constructor; [eapply tok_ok_inert_l; eassumption | exact IH].
-Qed.
-
-Lemma alias_collect_tagged W l : Forall tagged l -> forall i, alias_collect W l i false = [].
-Proof.
-  induction 1 as [|[tg s] l Ht _ IH]; intros i; [reflexivity|].
-  cbn [alias_collect]. unfold tagged in Ht. cbn [fst] in Ht. rewrite Ht. cbn [andb]. apply IH.
-Qed.
-
-Lemma expand_alias_tagged tokenize W cmd l :
-  cmd_ok W cmd -> Forall tagged l -> expand_alias tokenize W ((TNone, cmd) :: l) = (TNone, cmd) :: l.
-Proof.
-  intros [Ha (Hx & _ & Hp) _ _] Hl. unfold expand_alias.
-  cbn [alias_collect tag_is_empty tag_eqb andb].
-  rewrite (proj2 (str_eqb_neq _ _) Hp), (proj2 (str_eqb_neq _ _) Hx), Ha.
-  rewrite alias_collect_tagged by exact Hl. reflexivity.
-Qed.
-
-Lemma expand_home_map_tagged W l : Forall tagged l -> map (expand_home_tok W) l = l.
-Proof.
-  induction 1 as [|t l Ht _ IH]; [reflexivity|]. cbn [map]. rewrite IH.
-  unfold expand_home_tok. rewrite Ht. reflexivity.
-Qed.
-
-Lemma expand_home_tagged W cmd l :
-  ~ In 126 cmd -> Forall tagged l -> expand_home W ((TNone, cmd) :: l) = (TNone, cmd) :: l.
-Proof.
-  intros Hc Hl. unfold expand_home. cbn [map]. rewrite (expand_home_map_tagged W l Hl).
-  unfold expand_home_tok. cbn [fst snd tag_is_empty tag_eqb]. rewrite (strip_prefix_absent 126 cmd Hc).
-  reflexivity.
 Qed.
 
 (* ------------------------------------------------------------------ 5: the three run_pass passes *)
@@ -382,7 +379,7 @@ Proof.
   destruct Hc as [Ha Hn (H36 & H96 & H126 & H42 & H123) Hw] eqn:EHc. clear EHc.
   unfold do_expansion, do_expansion_log.
   rewrite (not_arithmetic W cmd l Hc), (not_export_prompt W cmd l Hc).
-  cbv zeta.
+  cbn zeta.
   rewrite (expand_alias_tagged _ W cmd l Hc Htag).
   rewrite (expand_home_tagged W cmd l H126 Htag).
   rewrite (expand_env_inert W fuel cmd l l' H36 Hl). cbn [bind].
